@@ -109,6 +109,8 @@ package jitterbuffer
 //@   requires inv: i.buffer != nil && jbInv(i.buffer)
 //@   modifies *
 //@   ensures read_once: calls("reader.Read") == 1
+//@   # property C13: the wrapped reader fills a private buffer, so buffered packets never alias the caller's read buffer
+//@   ensures private_read_buffer: fresh(callarg("reader.Read", 0)) && len(callarg("reader.Read", 0)) == len(b)
 //@   ensures read_error_returned: callres("reader.Read", 2) != nil ==> result2 == callres("reader.Read", 2)
 //@   ensures within_buffer: result2 == nil ==> 0 <= result0 && result0 <= len(b)
 //@   ensures parsed_what_was_read: calls("Unmarshal") <= 1 && (calls("Unmarshal") == 1 ==> len(callarg("Unmarshal", 1)) == callres("reader.Read", 0))
